@@ -145,6 +145,9 @@ class AbstractSpecification(object):
 
     def parse(self):
         self.ast.parse()
+        # the interpreters build their operators from the requirements again
+        self.set_ast_flag = False
+        self.set_offline_ast_flag = False
 
     # forwarding to interpreter
     def set_sampling_period(self, sampling_period=int(1), unit='s', tolerance=float(0.1)):
@@ -314,6 +317,8 @@ class AbstractOnlineSpecification(AbstractSpecification):
             # dense time has no next step: next / s_next are rejected, as without pastify()
             self.pastifier.step = None
         self.ast = self.pastifier.pastify(self.ast)
+        # operators built before (an earlier update() or reset()) belong to the requirements as they were
+        self.set_ast_flag = False
 
     # forwarding to interpreter
     def update(self, *args, **kwargs):
